@@ -10,4 +10,14 @@ TEXT = {
         "note": "Trusted: Lean kernel; the hand transcription pattern.go -> Model/Pattern.lean as far as the correspondence run exercises it; "
                 "the Go harness. Patterns with a repeated $tag are outside the substitution law (a Go map cannot hold both values).",
     },
+    "C09": {
+        "text": "Lean 4 theorems (Props/C09.lean) about the model of setDefaultOwnership/subscribe for EVERY configuration: no subscribed subject "
+                "is matched by another (irredundant, no hypothesis on the patterns); every request pattern of every owned pattern - and every concrete "
+                "get/call/auth/access subject of a matching resource name and method - is matched by a subscription; all subjects are valid NATS subjects; "
+                "Matches coincides with NATS subject matching on such subjects; default ownership is the service name and everything below it ('>' without name). "
+                "Tie: the real Service is served on a recording connection for exhaustive small and random ownership configurations; its subscriptions, queue "
+                "group and system.reset content are compared with the model and judged by the Lean NATS-side specification (Subs.judge).",
+        "note": "Trusted: Lean kernel; recording connection re-implements nats.go subject validation; ownership entries are assumed to be valid patterns of "
+                "literal tokens, * and a trailing > (ownedOk). Reconnect-triggered resets are not exercised (no real NATS in quick).",
+    },
 }
